@@ -8,7 +8,24 @@ from formak.exceptions import ModelConstructionError
 from matplotlib import pyplot as plt
 from numpy.typing import NDArray
 from sympy import Symbol, diff
+from sympy import simplify as sympy_simplify
 from sympy.solvers.solveset import nonlinsolve
+
+
+def simplify(expr):
+    """
+    sympy.simplify, except that the expression is kept as it is when the result is not an expression in the same symbols.
+
+    sympy.simplify can leak one of its internal Dummy symbols into the result
+    (seen with nested hyperbolic functions, e.g. x - tanh(tanh(x)**2)) and the
+    result can then neither be evaluated nor printed as C.
+    """
+    result = sympy_simplify(expr)
+    before = getattr(expr, "free_symbols", set())
+    after = getattr(result, "free_symbols", set())
+    if after - before:
+        return expr
+    return result
 
 
 class UiModelBase:
